@@ -163,7 +163,16 @@ OriginalsOutliveSeal == (hasData /\ ~delBegun /\ pc \notin {"none", "gone", "sea
 
 View == <<files, bad, pc, hasData, delBegun, status, served, crashes>>
 \* every crash state, with what the loader must do with it, for the replay on the real loader
+\* the files the loader must leave behind (what Restart does to `files`)
+Tmp == {"sdocsTmp", "indexTmp"}
+AfterFiles(F) ==
+  LET d == Loader(F) IN
+  CASE d = "cleanup" -> F \cap Tmp
+    [] d = "sealed"  -> F \ (IF "sdocs" \in F THEN {"meta", "docs"} ELSE {})
+    [] d = "replay"  -> (IF hasData THEN F ELSE F \cap Tmp)
+    [] OTHER         -> F
 Emit == status # "Down" \/ PrintT(<<"CASE", ToJson([files |-> files, bad |-> bad, skip |-> SkipSortDocs, hasData |-> hasData,
                                                    delBegun |-> delBegun, pc |-> pc, decision |-> Loader(files),
+                                                   after |-> AfterFiles(files),
                                                    mustServe |-> (hasData /\ ~delBegun /\ Loader(files) \in {"sealed", "replay"})])>>)
 =============================================================================
